@@ -410,4 +410,135 @@ theorem pred_noEp (Q : Pos) (x : UnMv) (h : Pred Q x) (hn : isEpUn Q x = false) 
   · show x.noEp.ui = undoInfo (noEp P) x.m
     unfold UnMv.noEp; rw [hui]; rfl
 
+/-! ## positions with an e.p. square: the double push came from an empty square -/
+
+theorem fixupEP_ep_some (p : Pos) (e : Sq) (h : (fixupEP p).ep = some e) : p.ep = some e := by
+  unfold fixupEP at h
+  split at h
+  · next hn => rw [hn] at h; cases h
+  · next e' he =>
+    split at h
+    · exact h
+    · cases h
+
+def applyEp (P : Pos) (m : Mv) : Option Sq :=
+  let w := P.wtm
+  let b := applyBoard P m
+  if kind (P.at m.f) == 6 && (m.t.val == m.f.val + 16 || m.f.val == m.t.val + 16) then
+    let enemyPawn : Pc := if w then BPAWN else WPAWN
+    let adj := (m.t.x > 0 && b.getD (m.t.val - 1) 0 == enemyPawn) || (m.t.x < 7 && b.getD (m.t.val + 1) 0 == enemyPawn)
+    if adj then some ⟨((m.f.val + m.t.val) / 2) % 64, Nat.mod_lt _ (by decide)⟩ else none
+  else none
+
+theorem apply_ep (P : Pos) (m : Mv) : (apply P m).ep = applyEp P m := rfl
+
+theorem ite_none_eq_some {α : Type} {c : Prop} [Decidable c] {x : Option α} {b : α} (h : (if c then x else none) = some b) : c ∧ x = some b := by
+  by_cases hc : c
+  · rw [if_pos hc] at h; exact ⟨hc, h⟩
+  · rw [if_neg hc] at h; cases h
+
+/-- the e.p. square after a move is set only by a double pawn push, midway between from and to -/
+theorem apply_ep_some (P : Pos) (m : Mv) (e : Sq) (h : (apply P m).ep = some e) :
+    kind (P.at m.f) = 6 ∧ (m.t.val = m.f.val + 16 ∨ m.f.val = m.t.val + 16) ∧ e.val = (m.f.val + m.t.val) / 2 % 64 := by
+  rw [apply_ep] at h
+  unfold applyEp at h
+  simp only at h
+  obtain ⟨hc, h2⟩ := ite_none_eq_some h
+  simp only [Bool.and_eq_true, Bool.or_eq_true, beq_iff_eq] at hc
+  obtain ⟨_, h3⟩ := ite_none_eq_some h2
+  injection h3 with h3
+  exact ⟨hc.1, hc.2, by rw [← h3]⟩
+
+/-- the from-square is empty after a move that is not castling -/
+theorem applyBoard_f (P : Pos) (m : Mv) (hne : m.f ≠ m.t) (hk : kind (P.at m.f) ≠ 1) : gt (applyBoard P m) m.f.val = 0 := by
+  have hne' : m.f.val ≠ m.t.val := fun h => hne (Fin.ext h)
+  have e1 : (kind (P.at m.f) == 1) = false := by simpa using hk
+  unfold applyBoard
+  simp only [e1, Bool.false_and, Bool.false_eq_true, if_false]
+  simp only [gt_setSq]
+  rw [if_neg (by omega)]; simp [m.f.isLt]
+
+/-- **the repaired behaviour is all the specification asks for**: a position with an e.p. square has predecessors
+    only if the origin square of the double push (and the e.p. square itself) is empty -/
+theorem pred_ep_origin_empty (Q : Pos) (x : UnMv) (e : Sq) (h : Pred Q x) (he : Q.ep = some e) :
+    Q.b.getD (if Q.wtm then e.val + 8 else e.val - 8) 0 = 0 ∧ Q.b.getD e.val 0 = 0 := by
+  obtain ⟨P, hwf, hleg, hq, hui⟩ := h
+  have hp := legalB_pseudo P x.m hleg
+  have hb : (apply P x.m).b = Q.b := by rw [← (fixupEP_fields _).1]; exact congrArg Core.b hq
+  have hw : Q.wtm = !P.wtm := by
+    have : (fixupEP (apply P x.m)).wtm = Q.wtm := congrArg Core.wtm hq
+    rw [(fixupEP_fields _).2.1] at this; rw [← this]; rfl
+  have hep : (fixupEP (apply P x.m)).ep = some e := by
+    have : (fixupEP (apply P x.m)).ep = Q.ep := congrArg Core.ep hq
+    rw [this, he]
+  obtain ⟨k6, hd, hev⟩ := apply_ep_some P x.m e (fixupEP_ep_some _ _ hep)
+  have hp' := hp
+  rw [pseudo_pawn P x.m k6, Bool.and_eq_true] at hp'
+  obtain ⟨hown, _, hne⟩ := preRule_facts P x.m hp'.1
+  have hf := x.m.f.isLt
+  have ht := x.m.t.isLt
+  obtain ⟨hs, _, _⟩ := wfB_facts P hwf
+  have hel := e.isLt
+  -- the predecessor's own e.p. square (if any) is not on the rank the pawn lands on
+  have hnep : P.ep ≠ some x.m.t := by
+    intro hpe
+    obtain ⟨_, _, _, a4, a5⟩ := pawn_ep_facts P x.m hown hp'.2 hs hpe
+    unfold epShape at hs
+    rw [hpe] at hs
+    cases hw' : P.wtm
+    · simp only [hw', Bool.false_eq_true, if_false, Bool.and_eq_true, beq_iff_eq, Sq.y] at hs
+      have := hs.1.1.1.1
+      unfold pawnRule dxy at hp'
+      simp only [hw', Bool.false_eq_true, if_false, Bool.and_eq_true, Bool.or_eq_true, beq_iff_eq, Sq.x, Sq.y] at hp'
+      obtain ⟨_, _, r2⟩ := hp'
+      rcases r2 with (⟨⟨a, b⟩, c⟩ | ⟨⟨⟨⟨a, b⟩, c⟩, d⟩, e'⟩) | ⟨⟨a, b⟩, c⟩ <;> omega
+    · simp only [hw', if_true, Bool.and_eq_true, beq_iff_eq, Sq.y] at hs
+      have := hs.1.1.1.1
+      unfold pawnRule dxy at hp'
+      simp only [hw', if_true, Bool.and_eq_true, Bool.or_eq_true, beq_iff_eq, Sq.x, Sq.y] at hp'
+      obtain ⟨_, _, r2⟩ := hp'
+      rcases r2 with (⟨⟨a, b⟩, c⟩ | ⟨⟨⟨⟨a, b⟩, c⟩, d⟩, e'⟩) | ⟨⟨a, b⟩, c⟩ <;> omega
+  have hr := hp'.2
+  unfold pawnRule dxy at hr
+  rw [apply_b] at hb
+  have hF := applyBoard_f P x.m hne (by rw [k6]; decide)
+  have hFr : ∀ i, 8 ≤ i ∧ i < 56 → i ≠ x.m.f.val → i ≠ x.m.t.val → gt (applyBoard P x.m) i = gt P.b i :=
+    fun i hi h1 h2 => square_stays P x.m i hp hi h1 h2 (fun h => absurd h hnep)
+  rw [hb] at hF hFr
+  unfold gt at hF hFr
+  rw [hw]
+  cases hw' : P.wtm
+  · simp only [hw', Bool.false_eq_true, if_false, Bool.and_eq_true, Bool.or_eq_true, beq_iff_eq, Sq.x, Sq.y, Bool.not_false, if_true] at hr ⊢
+    obtain ⟨_, r2⟩ := hr
+    rcases r2 with (⟨⟨a, b⟩, c⟩ | ⟨⟨⟨⟨a, b⟩, c⟩, d⟩, e'⟩) | ⟨⟨a, b⟩, c⟩
+    · exfalso; omega
+    · have h1 : e.val + 8 = x.m.f.val := by omega
+      refine ⟨by rw [h1]; exact hF, ?_⟩
+      split at e'
+      · next q hq =>
+        obtain ⟨qx, qy⟩ := mkSq?_some _ _ _ hq
+        simp only [Sq.x, Sq.y] at qx qy
+        have hqv : q.val = e.val := by have := q.isLt; omega
+        rw [hFr e.val (by omega) (by omega) (by omega), ← hqv]
+        have := eq_of_beq e'
+        rw [gt_at] at this; exact this
+      · cases e'
+    · exfalso; omega
+  · simp only [hw', if_true, Bool.and_eq_true, Bool.or_eq_true, beq_iff_eq, Sq.x, Sq.y, Bool.not_true, Bool.false_eq_true, if_false] at hr ⊢
+    obtain ⟨_, r2⟩ := hr
+    rcases r2 with (⟨⟨a, b⟩, c⟩ | ⟨⟨⟨⟨a, b⟩, c⟩, d⟩, e'⟩) | ⟨⟨a, b⟩, c⟩
+    · exfalso; omega
+    · have h1 : e.val - 8 = x.m.f.val := by omega
+      refine ⟨by rw [h1]; exact hF, ?_⟩
+      split at e'
+      · next q hq =>
+        obtain ⟨qx, qy⟩ := mkSq?_some _ _ _ hq
+        simp only [Sq.x, Sq.y] at qx qy
+        have hqv : q.val = e.val := by have := q.isLt; omega
+        rw [hFr e.val (by omega) (by omega) (by omega), ← hqv]
+        have := eq_of_beq e'
+        rw [gt_at] at this; exact this
+      · cases e'
+    · exfalso; omega
+
 end Chess
